@@ -689,7 +689,7 @@ func unitC15(e common.Env, p *common.Part) {
 // topic limit 1) and then probes sequentially: the sender has nothing buffered, so a message for a fresh
 // topic must be accepted and released. A slot leaked by a particular interleaving shows up after two rounds.
 func unitC15ctl(e common.Env, p *common.Part) {
-	p.Rule = "real msg.Box (MaxInFlightTopicsBySender=1) under the controlled scheduler: each schedule of a racing configuration {buffered messages; receive(s) || first Send} is replayed on three topics in a row, then a sequential probe demands that the same sender is served on a fresh topic; distinct key = (configuration, schedule); non-trivial when the schedule switched threads at least twice"
+	p.Rule = "real msg.Box (MaxInFlightTopicsBySender=1) under the controlled scheduler: each schedule of a racing configuration {buffered messages; receive(s) || first Send} is replayed on three topics in a row, then a sequential probe demands that the same sender is served on a fresh topic; plus configurations in which one sender at its limit delivers on several fresh topics concurrently (then every topic is started and the topics that released its messages are counted: limit+1 at most); distinct key = (configuration, schedule); non-trivial when the schedule switched threads at least twice"
 	cfgs := []c14cfg{
 		{Name: "recv m1 || Send", Threads: [][]string{{"r:A:7:m1"}, {"s:A"}}, Limit: e.Pick(3000, 100000)},
 		{Name: "m0 buffered; recv m1 || Send", Pre: []string{"r:A:7:m0"}, Threads: [][]string{{"r:A:7:m1"}, {"s:A"}}, Limit: e.Pick(3000, 100000)},
@@ -779,5 +779,59 @@ func unitC15ctl(e common.Env, p *common.Part) {
 		execs, exhaustive := ctlsched.Explore(cfg.Limit, run, func(ch []int) bool { return ch != nil && p.ViolationCount() < 3 })
 		p.SetExhaustive(cfg.Name, exhaustive)
 		p.Sample(map[string]interface{}{"config": cfg.Name, "schedules_enumerated": execs, "exhaustive": exhaustive, "rounds_per_schedule": rounds})
+	}
+	// the topic limit under concurrent receives: a sender at its limit delivers on several fresh topics at the same time (one
+	// dispatcher goroutine per topic); whatever the interleaving, it may end up buffered in limit+1 topics at most. Afterwards
+	// every topic is started sequentially and the topics in which the sender's message was released are counted.
+	bound := []c14cfg{
+		{Name: "limit 1: a0 buffered; recv B || recv C || recv D (one sender)", Pre: []string{"r:A:7:a0"}, Threads: [][]string{{"r:B:7:b0"}, {"r:C:7:c0"}, {"r:D:7:d0"}}, Limit: e.Pick(4000, 200000)},
+		{Name: "limit 1: recv A || recv B || recv C || recv D (one sender)", Threads: [][]string{{"r:A:7:a0"}, {"r:B:7:b0"}, {"r:C:7:c0"}, {"r:D:7:d0"}}, Limit: e.Pick(4000, 200000)},
+		{Name: "limit 1: a0 buffered; recv B,C || recv D,E (one sender)", Pre: []string{"r:A:7:a0"}, Threads: [][]string{{"r:B:7:b0", "r:C:7:c0"}, {"r:D:7:d0", "r:E:7:e0"}}, Limit: e.Pick(4000, 200000)},
+	}
+	for i, cfg := range bound {
+		if !e.Mine(len(cfgs)+i) || p.ViolationCount() >= 3 {
+			continue
+		}
+		cfg := cfg
+		p.Begin(cfg.Name)
+		run := func(prefix []int) ([]int, []int) {
+			ch, en, _, sch, ok := runCtlBox(cfg, 1, func(step, n int) int {
+				if step < len(prefix) {
+					return prefix[step]
+				}
+				return 0
+			}, func(b *msg.Box, h *boxHandler) {
+				for _, t := range []string{"A", "B", "C", "D", "E"} {
+					mkOp(b, "s:"+t)()
+				}
+			})
+			if !ok {
+				p.Violate("stuck/"+cfg.Name, cfg.Name+": "+sch.Deadlock, map[string]interface{}{"config": cfg, "schedule": sch.Trace})
+				return nil, nil
+			}
+			topics := map[string]bool{}
+			for _, l := range sch.Handed {
+				f := strings.SplitN(l, "/", 3)
+				if f[1] == "7" {
+					topics[f[0]] = true
+				}
+			}
+			p.Case(cfg.Name+"#"+strings.Join(sch.Trace, " "), true)
+			p.Count("schedules", 1)
+			p.Count("bound_schedules", 1)
+			if len(topics) > 2 {
+				p.Violate("limit-exceeded/topics-per-sender/concurrent-receives", fmt.Sprintf("%s: messages of sender 7 were released for %d topics that were all unstarted at the same time; the topic limit is 1 (+1)", cfg.Name, len(topics)),
+					map[string]interface{}{"config": cfg, "schedule": sch.Trace, "handed_over": sch.Handed})
+				return nil, nil
+			}
+			if len(cfg.Pre) > 0 && !topics["A"] {
+				p.Violate("throttled-within-limits/concurrent-receives", cfg.Name+": the message buffered first (sender within its limit) was not released", map[string]interface{}{"config": cfg, "schedule": sch.Trace})
+				return nil, nil
+			}
+			return ch, en
+		}
+		execs, exhaustive := ctlsched.Explore(cfg.Limit, run, func(ch []int) bool { return ch != nil && p.ViolationCount() < 3 })
+		p.SetExhaustive(cfg.Name, exhaustive)
+		p.Sample(map[string]interface{}{"config": cfg.Name, "schedules_enumerated": execs, "exhaustive": exhaustive})
 	}
 }
